@@ -27,6 +27,55 @@ ASSUMPTIONS = ["astropy Table/ascii/votable/fits writers store the columns "
 SRC = ["SimpleSource", "IslandSource", "ComponentSource"]
 
 
+MUTANTS = [
+    ("base class tested first", "AegeanTools/models.py",
+     "        if isinstance(source, ComponentSource):\n            "
+     "components.append(source)\n        elif isinstance(source, "
+     "IslandSource):\n            islands.append(source)\n        elif "
+     "isinstance(source, SimpleSource):\n            simples.append(source)",
+     "        if isinstance(source, SimpleSource):\n            "
+     "simples.append(source)\n        elif isinstance(source, "
+     "IslandSource):\n            islands.append(source)\n        elif "
+     "isinstance(source, ComponentSource):\n            components.append("
+     "source)", "C18-R1"),
+    ("returned lists swapped", "AegeanTools/models.py",
+     "    return components, islands, simples",
+     "    return components, simples, islands", "C18-R1"),
+    ("suffix swapped", "AegeanTools/catalogs.py",
+     "new_name = \"{1}{0}{2}\".format('_isle', *os.path.splitext(filename))",
+     "new_name = \"{1}{0}{2}\".format('_simp', *os.path.splitext(filename))",
+     "C18-R2"),
+    ("db tables misnamed", "AegeanTools/catalogs.py",
+     "[\"components\", \"islands\", \"simples\"]):",
+     "[\"components\", \"simples\", \"islands\"]):", "C18-R2"),
+    ("column without attribute", "AegeanTools/models.py",
+     "             'flags', 'residual_mean', 'residual_std',",
+     "             'flags', 'residual_mean', 'residual_rms',", "C18-R3"),
+    ("reader ignores names", "AegeanTools/catalogs.py",
+     "        for param in src_type.names:",
+     "        for param in table.colnames[:12]:", "C18-R4"),
+    ("first-row string width", "AegeanTools/catalogs.py",
+     "        elif isinstance(table[name][0], str):",
+     "        elif name == 'uuid':", "C18-R5"),
+    ("16-bit integers", "AegeanTools/catalogs.py",
+     "            types = \"J\"", "            types = \"I\"", "C18-R5"),
+    ("errors typed by first row", "AegeanTools/catalogs.py",
+     "        if name.startswith('err_'):\n            fmt = 'E'\n        "
+     "elif", "        if False:\n            fmt = 'E'\n        elif",
+     "C18-R5"),
+    ("html not dispatched", "AegeanTools/catalogs.py",
+     "                           'tab': 'tab', 'tex': 'latex', 'html': "
+     "'html'}", "                           'tab': 'tab', 'tex': 'latex'}",
+     "C18-R6"),
+]
+TWINS = [
+    ("double precision errors", "AegeanTools/catalogs.py",
+     "        if name.startswith('err_'):\n            fmt = 'E'",
+     "        if name.startswith('err_'):\n            fmt = 'D'"),
+]
+
+
+
 def bases_closure(prog, cq):
     out = []
     seen = set()
